@@ -563,6 +563,20 @@ Definition name_id_mapping_response (entityid : string) (name_id : option tree) 
   | None => None
   end.
 
+(* the same after proposed_fixes/C13-1.diff: status defaults to success_status_factory() and is passed on *)
+Definition name_id_mapping_response_fixed (entityid : string) (name_id : option tree) (irt : option string)
+           (status : statusv) (sg : signing) (ob : observed) : option obj :=
+  match sig_member sg ob with
+  | Some s =>
+      Some (Obj k_samlp_NameIDMappingResponse
+                [at_ "ID" (Some (ob_id ob)); at_ "Version" (Some VERSION);
+                 at_ "IssueInstant" (Some (ob_instant ob)); at_ "InResponseTo" irt; at_ "Destination" None; at_ "Consent" None]
+                None
+                [(qa "Issuer", [o_issuer entityid]); (Q DS_NS "Signature", s); (qp "Status", [status_obj status]);
+                 (qa "NameID", map (ORaw (CK k_saml_NameID)) (opt_list name_id))] [])
+  | None => None
+  end.
+
 (* ------------------------------------------------------------------ what the correspondence compares *)
 Inductive binfo :=
 | BOther
@@ -575,7 +589,8 @@ Inductive binfo :=
 | BAttributeQuery (a : aq_args)
 | BArtifactResolve (entityid artifact : string) (destination : option string) (consent : bool)
                    (extensions : option (list tree)) (sg : signing) (ob : observed)
-| BNameIDMappingResponse (entityid : string) (name_id : option tree) (irt : option string) (sg : signing) (ob : observed).
+| BNameIDMappingResponse (entityid : string) (name_id : option tree) (irt : option string) (status : statusv)
+                         (sg : signing) (ob : observed).
 
 Definition model_obj (b : binfo) : option (option obj) :=
   match b with
@@ -588,7 +603,15 @@ Definition model_obj (b : binfo) : option (option obj) :=
   | BResponse a => Some (response a)
   | BAttributeQuery a => Some (attribute_query a)
   | BArtifactResolve e ar d c x s o => Some (artifact_resolve e ar d c x s o)
-  | BNameIDMappingResponse e n i s o => Some (name_id_mapping_response e n i s o)
+  | BNameIDMappingResponse e n i _ s o => Some (name_id_mapping_response e n i s o)
+  end.
+
+(* the repaired variant of a builder whose defect is a recorded finding: accepted as well, so that the
+   check stays meaningful once the fix lands *)
+Definition model_obj_fixed (b : binfo) : option obj :=
+  match b with
+  | BNameIDMappingResponse e n i st s o => name_id_mapping_response_fixed e n i st s o
+  | _ => None
   end.
 
 Definition model_tree (b : binfo) : option (option tree) :=
